@@ -159,7 +159,7 @@ def shards(tier):
     out = [{'mode': 'enumerate', 'part': p, 'parts': 4} for p in range(4)]
     for mode, n in (('rigid', 4), ('tree', 8)):
         for _ in range(n if quick else n * 4):
-            out.append({'mode': mode, 'examples': 500 if quick else 3000})
+            out.append({'mode': mode, 'examples': 1200 if quick else 8000})
     return out
 
 
